@@ -5,7 +5,7 @@ import Splipy.Model.Numbering
 # C18 — `cps()`: the table holds at every number the control point numbered so
 -/
 
-namespace Splipy.MP
+namespace Splipy.MP.C18L
 
 /-- the number at position `j` of patch `k` -/
 def cpNum (cp : Array (NdArr ℤ)) (k j : ℕ) : ℤ := (cp.getD k default).data.getD j 0
@@ -164,4 +164,4 @@ theorem cpsTable_spec (dimension : ℕ) (objs : List Obj) (cp : Array (NdArr ℤ
     (fun k' j' hd => by have := hd.2.1; omega)
   refine ⟨by rw [h1]; simp, fun k j hk hj => h2 k j ⟨Nat.zero_le _, by omega, hj⟩⟩
 
-end Splipy.MP
+end Splipy.MP.C18L
